@@ -151,9 +151,9 @@ def c07(prop, tier, seed, core):
             n += 1
             out = os.path.join(work, "shard-%02d.json" % n)
             jobs.append(("%s/%s#%d" % (mode, config, s), [core.binpath("progsim"), "--prop", prop, "--mode", mode, "--config", config,
-                         "--seed", str(_seed(seed, n)), "--programs", str(1200 * mult_p), "--time-limit", str(14 * mult_t), "--out", out,
+                         "--seed", str(_seed(seed, n)), "--programs", str(1200 * mult_p), "--time-limit", str(14 * mult_t * (4 if tier == "quick" else 1)), "--out", out,
                          "--replay-dir", core.REPLAYS, "--known", ",".join(known_sigs)], out))
-    res = core.run_shards(prop, jobs, 14 * mult_t * 3 + 120)
+    res = core.run_shards(prop, jobs, 14 * mult_t * (4 if tier == "quick" else 1) * 3 + 120)
     # a shard that died (abort, signal) is a violation of C07 itself, not an inconclusive run
     fixed = []
     extra_viol = []
